@@ -68,12 +68,15 @@ def job_solver(job):
     hooked = hasattr(tad, "VERIF_SINK")
     if hooked:
         tad.VERIF_SINK = sink
+    prev_raised = False
     for op in job["script"]:
         d = op["d"] - 1
         desc = pydescs[d]
         if op["op"] == "snap":
             emit({"e": "Snap", "d": op["d"], "snap": digest(games.snapshot(desc))})
             continue
+        if op.get("unless_prev_raised") and prev_raised:
+            continue                    # the batch runner's flow: no unpruned run after a failed pruned one
         prune = bool(op["prune"])
         mode = op.get("mode", "solve")
         emit({"e": "Call", "d": op["d"], "prune": prune, "mode": mode, "obj": op.get("obj", "new")})
@@ -109,7 +112,9 @@ def job_solver(job):
             result = sg.solve()
         except Exception as exc:  # observed, not judged
             emit(classify(exc))
+            prev_raised = True
             continue
+        prev_raised = False
         try:
             fs, rs, rew, prob, nit, nit2, aux1, aux2 = result
             emit({"e": "Return",
